@@ -20,11 +20,12 @@ func c10(c *eng.Ctx, r *eng.Report) {
 	r.Explain = "Shape of each EVM operation decided by abstract interpretation of every jump-table handler (symbolic operand stack, constant propagation through handler factories): " +
 		"R10.1 the handler's stack effect on every success exit equals the row's minStack/maxStack declaration and, for standard opcodes, the Yellow-Paper (δ,α) table embedded in the checker; " +
 		"R10.2 for the 25 straight-line word operations the uint256 method applied, the operand slots it is applied to (first pop / second pop / top), the slot receiving the result and the guard polarity equal a reference row written from the Yellow Paper and the uint256 API; " +
-		"R10.3 JUMP/JUMPI store to pc only on the accepting edge of validJumpdest, validJumpdest keeps its three conjuncts (range, ==JUMPDEST, isCode), and the halts/jumps/reverts/returns flags equal the reference table. " +
+		"R10.3 JUMP/JUMPI store to pc only on the accepting edge of validJumpdest, JUMPI looks at its destination (and can fail) only under the test of its condition operand, validJumpdest keeps its three conjuncts (range, ==JUMPDEST, isCode), and the halts/jumps/reverts/returns flags equal the reference table. " +
 		"R10.4 the jump bitmap consulted is the running code's own: the frame-shared map is touched only under CodeHash != zero and keyed by c.CodeHash, every bitmap stored or consulted is codeBitmap(c.Code) or that entry, only isCode/NewContract write the two fields, and codeBitmap marks exactly the operands of PUSH1..PUSH32; " +
 		"R10.5 fresh memory is zero: Memory.store is assigned only in Resize and only as append(m.store, make([]byte, n)...), NewMemory returns a fresh object and Run takes one per frame. " +
 		"R10.6 every memory-touching standard opcode reads and writes exactly the regions its definition names (offset/length operands as entry stack slots, compared with a reference table from the Yellow Paper and the EIPs). " +
 		"R10.7 the return-data buffer is a private copy (Run copies the operation's result, or every handler of a `returns` row hands back a copy). " +
+		"R10.8 memory is resized to the maximum touched offset before execution: for each standard memory opcode every region its handler touches lies inside a region its memorySize function accounts for (the C11 coverage rule applied to the rows of the reference table; MCOPY needs both source and destination) and the growth is charged; " +
 		"Not decided: the 256-bit arithmetic itself (holiman/uint256), KECCAK, the bytes copied by Memory.Set/Copy, the bit arithmetic of bitvec.set/set8."
 	r.Assume = []string{"holiman/uint256 v1.1.1 methods implement their documented semantics (z.Op(x,y) sets z = x op y)", "Yellow Paper (δ,α) table transcribed in rules/vmrows.go"}
 	rows := analyseRows(c, r, "R10.1")
@@ -35,6 +36,7 @@ func c10(c *eng.Ctx, r *eng.Report) {
 	c10DumpMem(rows)
 	c10MemOperands(c, r, rows)
 	c10ReturnData(c, r, rows)
+	c11MemoryAs(c, r, rows, "R10.8", memRef, 20)
 	c10Bitmap(c, r)
 	c10Memory(c, r)
 }
@@ -398,6 +400,53 @@ func c10Jumps(c *eng.Ctx, r *eng.Report, rows []rowFx) {
 		}
 		if n == 0 {
 			r.Fail(rule, "vm."+name+":pc-store", c.Pos(fn.Pos()), "no store of a jump destination to *pc found")
+		}
+		if name == "opJumpi" {
+			// an untaken JUMPI falls through whatever its destination operand is: the destination is looked at, and
+			// the jump can fail, only on the condition-is-non-zero side
+			isCondTest := func(v ssa.Value) bool {
+				call, ok := v.(*ssa.Call)
+				if !ok || call.Call.StaticCallee() == vj {
+					return false
+				}
+				nm := eng.CallName(&call.Call)
+				return strings.HasSuffix(nm, ".IsZero") || strings.HasSuffix(nm, ".Sign")
+			}
+			bad := ""
+			nerr := 0
+			for _, re := range eng.Returns(fn) {
+				if len(re.Ret.Results) < 2 || eng.IsNilConst(re.Incoming(1)) {
+					continue
+				}
+				nerr++
+				blk := re.Ret.Block()
+				if re.Pred != nil {
+					blk = re.Pred
+				}
+				under := false
+				for _, cd := range eng.EdgeConds(blk) {
+					if isCondTest(cd.V) {
+						under = true
+					}
+				}
+				if !under {
+					bad = c.Pos(re.Ret.Pos())
+				}
+			}
+			for _, call := range callsNamed(fn, ".validJumpdest") {
+				under := false
+				for _, cd := range eng.CondsAt(call) {
+					if isCondTest(cd.V) {
+						under = true
+					}
+				}
+				if !under {
+					bad = c.Pos(call.Pos())
+				}
+			}
+			r.Check(bad == "" && nerr >= 1, rule, "vm.opJumpi:untaken-falls-through", c.Pos(fn.Pos()),
+				"the destination is validated, and the jump can fail, only under the test of the condition operand",
+				"opJumpi validates the destination (or returns an error) at "+bad+" without having tested the condition operand: JUMPI with a zero condition and a destination that is not a JUMPDEST must fall through to pc+1, not fail with ErrInvalidJump")
 		}
 	}
 	// validJumpdest: returns true only via isCode, after range test and JUMPDEST test
